@@ -366,4 +366,13 @@ def idleCloseAt (tr : Transport) (doneAt : Int) : Option Int :=
 def poolFate (tr : Transport) (n : Nat) (doneAt : Int) : List (Option Int) :=
   List.replicate (n - poolKept tr n) (some doneAt) ++ List.replicate (poolKept tr n) (idleCloseAt tr doneAt)
 
+/-! ### The dial phase (`net.Dialer.Timeout` behind `Transport.Dial`) -/
+
+/-- An upstream whose address accepts no connection (the connect neither succeeds nor is refused): the contract
+of `net.Dialer` for `Timeout = D` is a timeout `net.Error` at `D` when `D > 0`; without a timeout the connect hangs
+until the operating system gives up (`none`: no bound the proxy controls). The response-header timeout starts when
+the request has been written and plays no part. What the client of the proxy sees: the error handler's status. -/
+def serveUnreachable (tr : Transport) : Option (Nat × Int) :=
+  if 0 < tr.dialTimeout then some (errorStatus .netTimeout, tr.dialTimeout) else none
+
 end Fabio.Model.C19
